@@ -69,7 +69,10 @@ def stage(dest, modules, attrs=(), playback=False):
             if dropped:
                 open(p, "w").write(nt)
                 edits.append("S1 %s: dropped %s" % (os.path.relpath(p, dest), ", ".join(sorted(set(dropped)))))
-    shutil.copy(os.path.join(REPO, "Cargo.lock"), os.path.join(dest, "Cargo.lock"))
+    lock = os.path.join(REPO, "Cargo.lock")
+    if not os.path.exists(lock):          # scratch worktrees do not carry the (untracked) lock file
+        lock = "/repo/Cargo.lock"
+    shutil.copy(lock, os.path.join(dest, "Cargo.lock"))
     os.makedirs(os.path.join(dest, ".cargo"), exist_ok=True)
     with open(os.path.join(dest, ".cargo", "config.toml"), "w") as f:
         f.write("[net]\noffline = true\n")
